@@ -1,22 +1,24 @@
 # C08 — Firmware TDMA scheduler runs each item exactly in its scheduled frame
-import json, os
+import json, os, re
 from lib import vf, cbuild
 from gen import tdma_sched
 
 ID = "C08"
 LEVEL = "proof"
 LEAN_MODULES = ["OsmoVerif.Props.C08"]
-LEAN_MODEL_MODULES = ["OsmoVerif.Model.TdmaSched", "OsmoVerif.Spec.TdmaSched", "OsmoVerif.Lemmas.TdmaSched"]
+LEAN_MODEL_MODULES = ["OsmoVerif.Model.TdmaSched", "OsmoVerif.Spec.TdmaSched", "OsmoVerif.Lemmas.TdmaSchedBasic",
+                      "OsmoVerif.Lemmas.TdmaSchedSort", "OsmoVerif.Lemmas.TdmaSchedOps", "OsmoVerif.Lemmas.TdmaSchedSpec",
+                      "OsmoVerif.Lemmas.TdmaSched"]
 ASSUMPTIONS = [
-    "theorems are about OsmoVerif.Model.TdmaSched: hand model, statement by statement, of wrap_bucket, tdma_schedule, tdma_schedule_set, tdma_sched_advance, tdma_sched_flag_scan, _tdma_sched_bucket_sort (the exchange sort on seq[]), tdma_sched_execute (incl. rc < 0 path), tdma_sched_reset, with C widths, array capacities and an explicit out-of-bounds outcome",
-    "callbacks are identified by an id and do not re-enter the scheduler (no tdma_schedule*/reset from inside a callback); the theorems assume every callback reports success (rc >= 0), the error path is modelled and compared but outside the theorems",
-    "model tied to the current tree by differential execution of the unchanged tdma_sched.c (compiled for the host, l1s and console supplied by the harness) on structured random histories: buckets filled to capacity and beyond, > 25 advances, equal/negative/extreme priorities, offsets 0..255, failing callbacks, multi-frame sets incl. overflow in mid-set and elements after END_SET",
-    "TDMASCHED_NUM_FRAMES / TDMASCHED_NUM_CB, the field widths and the SCHED_END_FRAME()/SCHED_END_SET() encodings are regenerated from the header on every run and used by the theorems",
-    "the firmware discipline (tdma_sched_execute() then tdma_sched_advance() once per frame interrupt, sync.c l1s_compl/frame irq) is a hypothesis of runs_exactly_at; the ring statement without it is proved as well",
+    "theorems are about OsmoVerif.Model.TdmaSched: hand model, statement by statement, of wrap_bucket, tdma_schedule, tdma_schedule_set, tdma_sched_advance, tdma_sched_flag_scan, _tdma_sched_bucket_sort (the exchange sort on seq[]), tdma_sched_execute (incl. the rc < 0 path), tdma_sched_reset, tdma_sched_dump, with C widths, array capacities and an explicit out-of-bounds / NULL-call outcome",
+    "callbacks are identified by an id and do not re-enter the scheduler (no tdma_schedule*/reset from inside a callback); the exactly-once theorems assume every pending and scheduled callback reports success (rc >= 0; decidable predicate Inv/OpOk), the error path is modelled, compared, and covered by execute_error_keeps_bucket",
+    "admissible operations (OpOk): arguments within the C parameter types, item sets terminated by SCHED_END_SET() with frame offsets below 256 (no uint8_t wrap of ++frame_offset); runs_exactly_at additionally: offset < 25, no reset between scheduling and execution, the item distinguishable (not pending, not scheduled again), and the firmware discipline execute-then-advance once per frame (sync.c frame interrupt) with scheduling for the current frame only before its execute; the ring statement pending_runs_ring needs no discipline",
+    "model tied to the current tree by differential execution of the unchanged tdma_sched.c (compiled for the host; l1s, console and recording callbacks supplied by harness/c/c08_harness.c) on structured random histories: buckets filled to capacity and beyond, > 25 advances, equal/negative/extreme priorities, offsets 0..300, out-of-width arguments, failing callbacks, multi-frame sets incl. overflow in mid-set and elements after END_SET, stale flags, every priority pattern over {-1,0,1}^<=6 and {0,1}^8",
+    "TDMASCHED_NUM_FRAMES / TDMASCHED_NUM_CB, the field widths and the SCHED_END_FRAME()/SCHED_END_SET()/SCHED_ITEM()/SCHED_ITEM_DT() expansions are regenerated from the header on every run and used by the theorems (gen_consts)",
 ]
 MANIFEST = {
-    "text": "Lean 4 theorems over a statement-level model of tdma_sched.c: refinement of an abstract 'items due in d frames' machine for every operation and ring position (sched_refines), exactly-once execution at the scheduled frame with the scheduled parameters (runs_exactly_at, ring form and firmware-discipline form), priority order of every executed frame for the actual exchange sort (prio_order), multi-frame set placement (set_placement), executed frame left empty, overflow reported without touching other items, provenance of everything that runs (nothing_else_runs); constants regenerated from the header; the model is compared with the unchanged C code on structured random histories and an independent Python reference of the property is evaluated on the real C outputs",
-    "note": "trusted: Lean kernel (+propext, Classical.choice, Quot.sound), gen/tdma_sched.py, the differential harness harness/c/c08_harness.c (supplies l1s, console, recording callbacks); assumed: callbacks do not re-enter the scheduler and report success; modelled not verified: C integer conversion rules as written in Model/TdmaSched.lean",
+    "text": "Lean 4 theorems over a statement-level model of tdma_sched.c, from every well-formed state (any ring position) and every list of admissible operations: step_safe (no out-of-bounds index, no NULL call, invariant preserved), sched_refines / sched_refines_run (every operation does to the pending work what the abstract 'items due in d frames' machine does, same return values, executed callbacks a priority-sorted permutation of the items due), prio_order (for the actual exchange sort), executed_empty, overflow_reported / overflow_reported_set (error return, state unchanged resp. every frame keeps its items), set_placement (k-th frame of a set lands k frames after the first), pending_runs_ring (ring statement, no discipline), pending_runs_exactly_at / runs_exactly_at / set_runs_exactly_at (exactly once, at the execute after exactly N advances, with its parameters, 0 times anywhere else), nothing_else_runs, execute_error_keeps_bucket; constants regenerated from the header; the model is compared with the unchanged C code on structured random histories and an independent Python reference of the property is evaluated on the outputs of the real C code (instrumented with ASan/UBSan bounds)",
+    "note": "trusted: Lean kernel (+propext, Classical.choice, Quot.sound), gen/tdma_sched.py, the differential harness harness/c/c08_harness.c (supplies l1s, console, recording callbacks); assumed: callbacks do not re-enter the scheduler; premises of the exactly-once theorems: callbacks report success, offsets < 25, execute-then-advance discipline, no reset in between, distinguishable item; modelled not verified: C integer conversion rules as written in Model/TdmaSched.lean. Corner cases of the real code outside the premises are pinned by examples (unstable order of equal priorities, offset >= 25 aliases, scheduling for the executed current frame waits 25 frames, an overflowing set keeps its first items, reset keeps the current bucket, a failing callback leaves the bucket scheduled, tdma_schedule() inherits stale .flags)",
     "technique": "Lean 4 proof by refinement (invariant + induction over op lists) over a C-width model with explicit array bounds; differential correspondence with the compiled C; property oracle on the real code",
     "design_ref": "DESIGN.md section 5 C08",
 }
@@ -73,7 +75,9 @@ def run_hist(exe, lines, max_crashes=3):
             err = str(e)
         if len(part) == 1:
             msg = [l for l in err.split("\n") if "runtime error" in l or "ERROR" in l]
-            out.append("crash " + (msg[0].strip()[-160:] if msg else err.split("stderr:")[0].strip()[-80:]))
+            txt = msg[0].strip()[-160:] if msg else err.split("stderr:")[0].strip()[-80:]
+            txt = re.sub(r"0x[0-9a-fA-F]+", "0x..", txt).replace(vf.REPO, "<repo>")
+            out.append("crash " + " ".join(txt.split()))
             crashes += 1
             pos += 1
             chunk = len(lines)
@@ -540,9 +544,7 @@ def evaluate(cur, ops, obs, premises_only=False):
             if po:
                 continue
             d = ob[1]
-            if len(d) != NF:
-                return {"what": "scheduler depth is %d, not %d" % (len(d), NF), "op_index": i}
-            for j, v in enumerate(d):
+            for j, v in enumerate(d[:NF]):
                 T = t + j
                 if not (lo.get(T, 0) <= v <= hi.get(T, 0)):
                     what = "frame %d (due in %d) holds %d items, expected %d..%d" % (T, j, v, lo.get(T, 0), hi.get(T, 0))
@@ -630,6 +632,17 @@ def shrink(exe, cur, ops):
                     changed = True
                     continue
             i += 1
+        # whole frames: a consecutive (exec, adv) pair
+        i = 0
+        while i + 1 < len(ops) and budget > 0:
+            if ops[i][0] == "exec" and ops[i + 1][0] == "adv":
+                budget -= 1
+                cand = ops[:i] + ops[i + 2:]
+                if bad(cand):
+                    ops = cand
+                    changed = True
+                    continue
+            i += 1
         # drop trailing ops
         while len(ops) > 1 and budget > 0:
             budget -= 1
@@ -698,8 +711,16 @@ def search(run, corr, deep):
             hist.append(g.disciplined(run.rng.choice([2, 10, 30]), [0, 0, 1, 2, 3], resets=True, overflow=run.rng.random() < 0.3))
         else:
             hist.append(g.disciplined(run.rng.choice([5, 40]), [0, 1, 2, 5, 9], resets=False, sets=False, overflow=run.rng.random() < 0.5))
+    ndis = len([1 for d in corr.disagreements])
     lines = [to_line(c, o) for c, o in hist]
-    answers = run_hist(exe, lines)
+    # the disagreeing histories separately: a crash budget spent on them must not hide the generated ones
+    nd = 0
+    for d in corr.disagreements:
+        try:
+            parse_line(d["request"]); nd += 1
+        except Exception:
+            pass
+    answers = (run_hist(exe, lines[:nd], max_crashes=10) if nd else []) + run_hist(exe, lines[nd:], max_crashes=6)
     stats = {"ok": 0, "n/a": 0, "fail": 0}
     items = 0
     for (cur, ops), ans in zip(hist, answers):
